@@ -201,7 +201,14 @@ def main(argv=None):
     # ---- extra (non-pyvc) obligations supplied by the contract module (finite back end, static scans)
     extra = []
     if hasattr(cm, "extra_obligations"):
-        extra = cm.extra_obligations(mods, tier, seed)   # list of dict(name,status,backend,where,time,[replay])
+        try:
+            extra = cm.extra_obligations(mods, tier, seed)   # list of dict(name,status,backend,where,time,[replay])
+        except Exception as ex:
+            # a crash of the checker's own harness is never a verdict about the property (and never exit 1)
+            import traceback
+            traceback.print_exc()
+            print(f"CHECKER-DEFECT property={pid}: the finite/bounded back end crashed: {type(ex).__name__}: {str(ex)[-300:]}")
+            return 3
 
     obligations = []
     broken_units = []
